@@ -37,12 +37,43 @@ def setup_engine(seed=0):
     for k in (type(None), bool, int, float, str, bytes, list, tuple, dict, set, datetime.datetime, type, object):
         E.classes.cid(k)
     E.classes.open_bases = set([bb.Struct, bb.Union])
+    from . import symclass
+    symclass.install(E, bb)
     import spec.runtime as S
 
     def m_re_valid(E, args, kw):
         f = z3.Function('ReValid', z3.StringSort(), z3.BoolSort())
         return E.bool_sv(f(Val.s(E.lift(args[0]))))
     E.models[S.re_compile_ok] = m_re_valid
+    from . import builtins_model as B
+
+    def m_is_slot_name(E, args, kw):
+        t = E.lift(args[0])
+        name = 'Tmpl_' + B._h(repr(('_', '_value')))
+        f = z3.Function(name, z3.StringSort(), z3.StringSort())
+        inv = z3.Function(name + '_inv', z3.StringSort(), z3.StringSort())
+        n = z3.simplify(Val.s(t))
+        return E.bool_sv(z3.And(Val.is_VStr(t), z3.simplify(n == f(inv(n)))))
+    E.models[S.is_slot_name] = m_is_slot_name
+
+    def m_field_index(E, args, kw):
+        D, n = args
+        f = z3.Function('FieldIndex', vals.VS, vals.VS, z3.IntSort())
+        k = f(E.lift(D), E.lift(n))
+        fields = E.getattr_(D, '_all_fields_')
+        E.path.index(k, Val.llen(E.lift(fields)))
+        return I.T(Val.VInt(k))
+    E.models[S.field_index] = m_field_index
+
+    def m_dict_with(E, args, kw):
+        d, k, v = args
+        return B.dict_store(E, I.T(E.lift(d)), k, v)
+    E.models[S.dict_with] = m_dict_with
+
+    def m_dict_update(E, args, kw):
+        a, b = args
+        return B.dict_update(E, I.T(E.lift(a)), I.T(E.lift(b)))
+    E.models[S.dict_update] = m_dict_update
     install_spec_models(E)
     return E
 
@@ -116,12 +147,12 @@ def make_param(E, p, name, kind):
         k = p.choose([z3.BoolVal(True)] * len(kind.kinds), ['%s:alt%d' % (name, j) for j in range(len(kind.kinds))])
         return make_param(E, p, name, kind.kinds[k])
     if isinstance(kind, CT.AnyVal):
-        t = z3.Const('p_' + name, Val)
+        t = z3.Const('p_' + name, vals.VS)
         p.assume(z3.Not(Val.is_VAbsent(t)))
         wf_value(E, p, t)
         return I.T(t)
     if isinstance(kind, CT.Json):
-        t = z3.Const('p_' + name, Val)
+        t = z3.Const('p_' + name, vals.VS)
         p.assume(spec_is_json_shallow(t))
         wf_value(E, p, t)
         return I.T(t)
@@ -142,7 +173,10 @@ def make_param(E, p, name, kind):
             subs = [k for k in subs if k is not kind.cls]
         for k in subs:
             E.classes.cid(k)
-        p.assume(z3.Or(*[c == E.classes.cid(k) for k in subs]))
+        if kind.generated:
+            p.assume(z3.And(c > I.SYM_CLASS_BASE, E.classes.Sub(c, z3.IntVal(E.classes.cid(kind.cls)))))
+        else:
+            p.assume(z3.Or(*[c == E.classes.cid(k) for k in subs]))
         if kind.fresh:
             for s in E.instance_slots(kind.cls):
                 arr = p.heap_arr(s)
@@ -213,7 +247,7 @@ def decode_term(E, p, model, t, depth=0):
             if a.startswith('H0_'):
                 continue
         for name in sorted(names | set(k for k in p.heap if not E.instance_slots(cls))):
-            arr = z3.Const('H0_' + name, z3.ArraySort(z3.IntSort(), Val))
+            arr = z3.Const('H0_' + name, z3.ArraySort(z3.IntSort(), vals.VS))
             v = model.eval(z3.Select(arr, oid), model_completion=True)
             if v.decl().name() == 'VAbsent':
                 continue
@@ -244,14 +278,14 @@ def decode_term(E, p, model, t, depth=0):
             items.append([decode_term(E, p, model, kk, depth + 1), decode_term(E, p, model, vv, depth + 1)])
         return {'k': 'dict', 'items': items}
     if d == 'VDatetime':
-        tz = z3.Function('dt_tzinfo', z3.IntSort(), Val)
+        tz = z3.Function('dt_tzinfo', z3.IntSort(), vals.VS)
         tzv = model.eval(tz(t.arg(0)), model_completion=True)
         desc = {'k': 'datetime', 'id': t.arg(0).as_long(), 'tz': tzv.decl().name()}
         if tzv.decl().name() != 'VNone':
-            uo = z3.Function('tz_utcoffset', Val, Val, Val)
+            uo = z3.Function('tz_utcoffset', vals.VS, vals.VS, vals.VS)
             off = model.eval(uo(tzv, t), model_completion=True)
             desc['utcoffset'] = off.decl().name()
-            ts = z3.Function('TimedeltaSeconds', Val, vals.FP)
+            ts = z3.Function('TimedeltaSeconds', vals.VS, vals.FP)
             secs = model.eval(ts(off), model_completion=True)
             try:
                 f = vals._fp_to_py(secs)
@@ -302,13 +336,29 @@ class Verifier:
             ob = I.Obligation(name, kind, 'discharged', 'trivial', None, 0.0, list(p.labels))
             rep.obligations.append(ob)
             return ob
-        s = p.solver
+        s = z3.Solver()
         s.set('timeout', self.timeout)
-        s.push()
-        for qd in p.qdefs:
-            s.add(qd)
+        s.set('random_seed', self.seed)
+        for a in p.solver.assertions():
+            s.add(a)
+        for ax in vals.AXIOMS:
+            s.add(ax)
         s.add(z3.Not(g))
+        # stage 1: quantifier-free (quantified facts are present through their
+        # instances at the index terms and skolem witnesses of this path)
         r = s.check()
+        if r != z3.unsat and p.qdefs:
+            # stage 2: with the quantified definitions themselves
+            s2 = z3.Solver()
+            s2.set('timeout', self.timeout)
+            s2.set('random_seed', self.seed)
+            for a in s.assertions():
+                s2.add(a)
+            for qd in p.qdefs:
+                s2.add(qd)
+            r2 = s2.check()
+            if r2 == z3.unsat or (r2 == z3.sat and r != z3.sat):
+                r, s = r2, s2
         model_json = None
         detail = str(r)
         if r == z3.sat:
@@ -320,8 +370,6 @@ class Verifier:
                 detail = 'sat (model extraction failed: %s)' % e
         elif r == z3.unknown:
             detail = 'unknown: ' + s.reason_unknown()
-        s.pop()
-        s.set('timeout', I.FEAS_TIMEOUT_MS)
         dt = time.time() - t0
         rep.solver_seconds += dt
         status = 'discharged' if r == z3.unsat else ('failed' if r == z3.sat else 'unknown')
@@ -335,6 +383,7 @@ class Verifier:
         """Verify one contract class against the function it targets."""
         rep = FunctionReport(con.target)
         t0 = time.time()
+        vals.reset_axioms()
         try:
             fn, owner = CT.resolve(con.target)
         except Exception as e:
@@ -345,6 +394,7 @@ class Verifier:
         pathno = [0]
         outcomes = {'return': 0, 'raise': 0}
         argstore = {}
+        pre_cache = {}
         E.inlined = set()
         E.assumptions = set()
 
@@ -355,14 +405,50 @@ class Verifier:
                     continue
                 argsv[name] = make_param(E, p, name, kind)
             argstore['cur'] = argsv
-            req = con.__dict__.get('requires')
-            if req is not None:
-                r = eval_spec(E, req, list(argsv.values()))
-                b = E.truth(r)
-                p.assume(I._zb(b))
-                if p.check() == z3.unsat:
+            pkey = tuple(p.decisions)
+            if pkey in pre_cache:
+                # the symbolic parameters have fixed names: what the evaluation of
+                # requires()/expected() on the pre-state added is the same on every path
+                rec = pre_cache[pkey]
+                for f in rec['pc']:
+                    p.assume(f)
+                p.qdefs.extend(rec['qdefs'])
+                p.quants.extend(rec['quants'])
+                p.indices.extend(rec['indices'])
+                for k, v in rec['ghost'].items():
+                    p.ghost.setdefault(k, v)
+                p.heap = dict(rec['heap'])
+                p.fresh_n = max(p.fresh_n, rec['fresh_n'])
+                p.exp = rec['exp']
+                if rec['infeasible']:
                     raise I.PathAbort()
-            assume_not_known_cases(E, p, con, argsv)
+            else:
+                n_pc, n_qd, n_qu, n_ix = len(p.pc), len(p.qdefs), len(p.quants), len(p.indices)
+                infeasible = False
+                req = con.__dict__.get('requires')
+                if req is not None:
+                    r = eval_spec(E, req, list(argsv.values()))
+                    b = E.truth(r)
+                    p.assume(I._zb(b))
+                    if p.check() == z3.unsat:
+                        infeasible = True
+                if not infeasible:
+                    try:
+                        assume_not_known_cases(E, p, con, argsv)
+                    except I.PathAbort:
+                        infeasible = True
+                p.exp = None
+                exp_fn0 = con.__dict__.get('expected')
+                if exp_fn0 is not None and not infeasible:
+                    p.exp = eval_spec(E, exp_fn0, list(argsv.values()))
+                pre_cache[pkey] = {'pc': list(p.pc[n_pc:]), 'qdefs': list(p.qdefs[n_qd:]),
+                                   'quants': list(p.quants[n_qu:]), 'indices': list(p.indices[n_ix:]),
+                                   'ghost': dict((k, v) for k, v in p.ghost.items()
+                                                 if not (isinstance(k, tuple) and k and k[0] in ('mustnot',))),
+                                   'heap': dict(p.heap), 'fresh_n': p.fresh_n, 'exp': p.exp,
+                                   'infeasible': infeasible}
+                if infeasible:
+                    raise I.PathAbort()
             p.heap0 = dict(p.heap)
             pos = [argsv[n] for n in params if n in argsv]
             return E.inline(fn, pos, {}, owner)
@@ -376,13 +462,8 @@ class Verifier:
             exp_fn = con.__dict__.get('expected')
             goal = z3.BoolVal(True)
             if exp_fn is not None:
-                # the expected outcome is a function of the pre-state
-                saved_heap = p.heap
-                p.heap = dict(p.heap0)
-                try:
-                    exp = eval_spec(E, exp_fn, list(argsv.values()))
-                finally:
-                    p.heap = saved_heap
+                # the expected outcome is a function of the pre-state (evaluated once, before the body)
+                exp = p.exp
                 if not isinstance(exp, I.SOutcome):
                     raise I.Unsupported('expected() did not return an outcome: %r' % (exp,))
                 if kind == 'return':
@@ -406,6 +487,8 @@ class Verifier:
                             argstore.get('cur'), con)
             rep.failed.extend([ob] if ob.status != 'discharged' else [])
         E.on_require = on_require
+        E.cur_con, E.cur_fn = con, fn
+        E.unfold_only = con.opts.get('unfold')
         install_contracts(E)
         try:
             rep.paths = E.explore(run, on_path)
@@ -479,18 +562,25 @@ class ContractAdapter:
         vals_ = [loc[n] for n in names if n in loc and not isinstance(con.params[n], CT.Default)]
         req = con.__dict__.get('requires')
         unfold = bool(con.opts.get('unfold_at_call'))
+        pre = None
         if req is not None:
             r = eval_spec(E, req, vals_, unfold)
             b = I._zb(E.truth(r))
             if E.merge:
                 if getattr(E, 'pre_conds', None) is not None:
                     E.pre_conds.append(b)
+                pre = z3.simplify(b)
             else:
                 E.require(b, 'pre:%s' % con.target.split(':')[1])
         exp_fn = con.__dict__.get('expected')
         if exp_fn is None:
             return self.apply_relational(E, vals_)
-        exp = eval_spec(E, exp_fn, vals_, unfold)
+        if pre is not None and not z3.is_true(pre):
+            # the contract speaks under its precondition
+            with E.assuming(pre):
+                exp = eval_spec(E, exp_fn, vals_, unfold)
+        else:
+            exp = eval_spec(E, exp_fn, vals_, unfold)
         if not isinstance(exp, I.SOutcome):
             raise I.Unsupported('expected() of %s did not return an outcome' % con.target)
         israise = I._zb(exp.israise)
@@ -560,6 +650,7 @@ def verify_lemma(V, E, lem):
     """Prove ``hypothesis => statement`` for all parameters."""
     rep = FunctionReport(lem.target)
     t0 = time.time()
+    vals.reset_axioms()
     rep.file = inspect.getsourcefile(lem)
     E.inlined = set()
     E.assumptions = set()
